@@ -239,6 +239,9 @@ SLIPS = ["alias_signal", "alias_instance", "call_returns_same", "rename_signal",
          "bad_edit_after_failure_late", "bad_edit_after_failure_early", "ext_revised_then_used", "ext_revised_pin_left_open"]
 
 
+SLIPS_STALE = [f"stale_slice:{lo}:{hi}:{nw}" for lo in range(8) for hi in range(lo + 1, 9) for nw in range(1, 8) if hi > nw]
+
+
 def _slip_one(kind):
     """Design programs with a slip of the pen after which object names and namespace keys (or cached geometry) disagree:
     whatever to_proto returns must still be well formed - raising is fine."""
@@ -290,6 +293,15 @@ def _slip_one(kind):
             sl.width  # bounds are worked out here ...
             m.bus.width = 4  # ... and the parent shrinks afterwards
             m.u = wide(a=sl)
+        elif kind.startswith("stale_slice:"):
+            # every slice of the 8-bit bus whose bounds were worked out before the bus shrank to every smaller width
+            lo, hi, nw = (int(x) for x in kind.split(":")[1:])
+            leafw = h.Module(name=f"SWide{hi - lo}")
+            leafw.a = h.Input(width=hi - lo)
+            sl = m.bus[lo:hi]
+            sl.width
+            m.bus.width = nw
+            m.u = leafw(a=sl)
         elif kind == "width_zero":
             m.w.width = 0
             m.i2 = inv(i=m.y, z=m.w)
@@ -503,13 +515,13 @@ def run(ctx):
         if status == "pkg" and probs:
             ctx.violation(dict(corpus="redeclared", first=item[0], then=item[1], problem=classify(probs[0])), dict(redecl=list(item)), probs[:5])
     # (c3c) slips after which names / cached geometry disagree with the namespace
-    for kind in SLIPS:
+    for kind in SLIPS + SLIPS_STALE:
         k_, status, probs = _slip_one(kind)
         ctx.count(states=1, transitions=2, traces_validated_against_impl=1)
         ctx.fam("program_slips", **{("pkg" if status == "pkg" else "raised"): 1})
-        ctx.outcome(status.split(":")[0] + ":slip:" + kind)
+        ctx.outcome(status.split(":")[0] + ":slip:" + kind.split(":")[0])
         if status == "pkg" and probs:
-            ctx.violation(dict(corpus="slips", slip=kind, problem=classify(probs[0])), dict(slip=kind), probs[:5])
+            ctx.violation(dict(corpus="slips", slip=kind.split(":")[0], problem=classify(probs[0])), dict(slip=kind), probs[:5])
     # (c4) single-fault mutants: ill-formed designs normally raise; anything returned must be well formed
     mitems = []
     for fname, stride in (("f1_expr", 60), ("f2_portrefs", 900), ("f4_bundles", 12), ("f5_arrays", 40), ("f7_hier", 400)):
